@@ -9,19 +9,21 @@ def showEv (e : Ev) : String :=
 def showRes : Res → String
   | .ok => "ok" | .err => "err" | .fuel => "fuel"
 
-/-- ops: `bdl idx sub data size|- crcreq srvcrc blks loss|- buf`, `crc data init` -/
+/-- ops: `bdl idx sub data size|- crcreq srvcrc blks loss|- buf offers|-`, `crc data init`.
+    `offers` = the lengths of the raw `write()` offers the caller made (recorded by the harness; `-` =
+    the hand loop that always offers the whole remainder); the buffer token itself is not needed here -/
 def step (args : List String) : String :=
   match args with
-  | ["bdl", idx, sub, data, size, crcReq, srvCrc, blks, loss, _buf] =>
+  | ["bdl", idx, sub, data, size, crcReq, srvCrc, blks, loss, _buf, offers] =>
     match idx.toNat?, sub.toNat?, parseData data, parseOptNat size, parseBool crcReq, parseBool srvCrc,
-          parseNatList blks, parseNatList loss with
-    | some idx, some sub, some payload, some size, some crcReq, some srvCrc, some blks, some loss =>
+          parseNatList blks, parseNatList loss, parseNatList offers with
+    | some idx, some sub, some payload, some size, some crcReq, some srvCrc, some blks, some loss, some offers =>
       if blks.isEmpty then "bad-op" else
       let E : Env := { blkOf := fun k => blks.getD (k % blks.length) 0, lost := fun n => loss.contains n }
-      let (s, r) := blockDownload E (fuelFor payload loss.length) srvCrc idx sub payload size crcReq
+      let (s, r) := blockDownloadOffers E (driverFuel payload loss.length offers) srvCrc idx sub payload size crcReq offers
       let committed := match s.srv.committed with | none => "none" | some d => toHex d
       s!"{showRes r} {committed} {showOptNat s.srv.illegal} " ++ String.intercalate "," (s.log.reverse.map showEv)
-    | _, _, _, _, _, _, _, _ => "bad-op"
+    | _, _, _, _, _, _, _, _, _ => "bad-op"
   | ["crc", data, init] =>
     match parseData data, init.toNat? with
     | some d, some i => s!"ok {Crc.crcHqx d i}"
